@@ -22,9 +22,18 @@ def _objects():
     return nss, EAS, taus_mod
 
 
+# "the smallest reachable tau energy stays above the tau mass" is a joint property of code and the three shipped tables:
+# it is proved in Props/C18.lean (kernel-checked zero prefixes of every CDF row + slab bounds, lifted through the
+# bilinear interpolation and the inverse transform) and is an obligation of this property too.
+EXTRA_TARGETS = ["NssVerif.Props.C18"]
+EXTRA_THEOREMS = ["C18.shipped_min_tau_energy_v1", "C18.shipped_min_tau_energy_v2", "C18.shipped_min_tau_energy_v3",
+                  "C18.reachable_tau_above_mass"]
+
+
 def regen():
     import srctie
-    return srctie.regen("C07")
+    import tabutil
+    return {**tabutil.regen_tables(), **srctie.regen("C07")}
 
 
 def run(ctx: Ctx):
@@ -46,9 +55,22 @@ def run(ctx: Ctx):
     # ---- Taus.__call__ : gamma, beta_tau, shower energy from the energy the real code sampled
     for ver in ("1", "2", "3"):
         for frac in (0.5, 1.0, float(rng.uniform(0.01, 1.0))):
-            cfg = nss.NssConfig()
-            cfg.simulation.tau_shower.table_version = ver
-            cfg.simulation.tau_shower.etau_frac = frac
+            # the configuration is built the way users build it (validated constructor; from a dictionary); the fraction in
+            # force must be the number that was configured
+            import nuspacesim.config as cfgmod
+            route = int(rng.integers(0, 3)) if frac != 1.0 else 1 + int(rng.integers(0, 2))
+            if route == 0:
+                cfg = nss.NssConfig()
+                cfg.simulation.tau_shower.table_version = ver
+                cfg.simulation.tau_shower.etau_frac = frac
+            elif route == 1:
+                cfg = nss.NssConfig(simulation=cfgmod.Simulation(tau_shower=cfgmod.Simulation.NuPyPropShower(etau_frac=frac, table_version=ver)))
+            else:
+                cfg = nss.NssConfig.model_validate({"simulation": {"tau_shower": {"id": "nupyprop", "etau_frac": frac, "table_version": ver}}})
+            ctx.count(f"config_route_{('assign', 'constructor', 'dict')[route]}")
+            if cfg.simulation.tau_shower.etau_frac != frac:
+                ctx.violation("NssConfig", "etau_frac-not-the-configured-number", "the configuration holds a different shower-energy fraction than the one configured",
+                              {"route": ("assign", "constructor", "dict")[route], "configured": frac, "held": float(cfg.simulation.tau_shower.etau_frac)})
             tau = taus_mod.Taus(cfg)
             betas = np.radians(rng.uniform(0.0, 42.0, n))
             loge = rng.uniform(6.0, 12.0, n)
@@ -114,6 +136,19 @@ def run(ctx: Ctx):
                                   {"version": ver, "etau_frac_sequence_so_far": [frac, frac2], "etau_frac": frac2, "tauEnergy": float(te2[k_]),
                                    "showerEnergy": float(se2[k_]), "ratio": float(se2[k_] * 1e8 / te2[k_])})
                     break
+    lowest_energies(ctx)
+    # ---- optional plots are inert (Taus.__call__ draws its own deviates: re-seeded before each call)
+    import plotinert
+    cfg_p = nss.NssConfig()
+    tau_p = taus_mod.Taus(cfg_p)
+    b_p = np.radians(rng.uniform(0.5, 41.0, 48)); l_p = rng.uniform(6.0, 12.0, 48)
+
+    def call_taus(plot):
+        np.random.seed(1234)
+        b_, l_ = b_p.copy(), l_p.copy()
+        r = tau_p(b_, l_) if plot is None else tau_p(b_, l_, plot=plot)
+        return (*r, b_, l_)
+    plotinert.check(ctx, "Taus.__call__", call_taus, {"events": 48}, spellings=("list", "name"))
     # ---- EAS.altDec with explicit u
     cfg = nss.NssConfig()
     eas = EAS(cfg)
@@ -187,9 +222,36 @@ def run(ctx: Ctx):
     ctx.traces += 9 + 1
 
 
+def lowest_energies(ctx: Ctx):
+    """Directed: the lowest tau energies the real sampler can return — every (energy, angle) node and cell centre of every
+    shipped table, deviates u from 1e-12 up — must stay above the tau mass (gamma >= 1, real speed)."""
+    nss, EAS, taus_mod = _objects()
+    for ver in ("1", "2", "3"):
+        cfg = nss.NssConfig()
+        cfg.simulation.tau_shower.table_version = ver
+        tau = taus_mod.Taus(cfg)
+        gE = np.asarray(tau.tau_cdf_grid["log_e_nu"], dtype=np.float64)
+        gB = np.asarray(tau.tau_cdf_grid["beta_rad"], dtype=np.float64)
+        Es = np.unique(np.concatenate([gE, 0.5 * (gE[1:] + gE[:-1])]))
+        Bs = np.unique(np.concatenate([gB, 0.5 * (gB[1:] + gB[:-1])]))
+        EE, BB = (a.ravel() for a in np.meshgrid(Es, Bs, indexing="ij"))
+        for u_ in (1e-12, 1e-9, 1e-6, 1e-4, 1e-3, 1e-2):
+            te = tau.tau_energy(BB.copy(), EE.copy(), np.full(EE.shape, u_))
+            ctx.case(n=len(EE))
+            ctx.count("lowest_energy_probes", len(EE))
+            bad = np.nonzero(~(te > taus_mod.massTau))[0]
+            for k_ in bad[:3]:
+                ctx.violation("Taus.tau_energy", "energy-not-above-tau-mass",
+                              "a tau energy reachable from a shipped table is not above the tau mass (gamma < 1, speed not real)",
+                              {"version": ver, "log_e_nu": float(EE[k_]), "beta_rad": float(BB[k_]), "u": u_, "tauEnergy": float(te[k_]),
+                               "tauLorentz": float(te[k_] / taus_mod.massTau)})
+            if len(bad):
+                break
+
+
 def search(ctx: Ctx):
     """Failing-input search: the oracle clauses in run() already ran on the real code; widen the streams."""
-    if ctx.tier != "thorough":
+    if ctx.tier != "thorough" and not ctx.violations:
         ctx.tier = "thorough"
         run(ctx)
 
